@@ -160,6 +160,8 @@ class C04(Prop):
             return (f"CEncRequest {P} {jv.text_term(fp(case['method']))} {jv.json_term(fp(case['args']))} "
                     f"{jv.json_term(fp(case['id']))} {e}")
         if k == 'enc_resp':
+            if exp is None:
+                return None        # the encoder refused: the oracle decides
             r = case['resp']
             rv = f"(RResult {jv.json_term(fp(r[1]))})" if r[0] == 'res' else f"(RError {jv.json_term(r[1])} {jv.text_term(fp(r[2]))})"
             return f"CEncResponse {P} {rv} {jv.json_term(fp(case['id']))} {c_bytes(bytes(exp))}"
